@@ -104,10 +104,33 @@ def rhs1d(ctx, rng, idx):
     ctx.nontrivial(desc)
 
 
-def _section(rng, L):
-    k = str(rng.choice(["poly", "gauss", "exp", "linear"]))
+def _section(rng, L, mesh=None):
+    """'any section law': smooth laws, and laws that are positive in every cell but VANISH exactly at a mesh face (wedge, closing
+    duct, pinched throat), jump (step) or are tiny/huge"""
+    kinds = ["poly", "gauss", "exp", "linear"]
+    if mesh is not None:
+        kinds += ["wedge", "closing", "pinch", "cusp", "step", "scaled"]
+    k = str(rng.choice(kinds))
     a, b = float(np.round(rng.uniform(0.2, 2), 3)), float(np.round(rng.uniform(0.1, 0.9), 3))
-    if k == "poly":
+    if k in ("wedge", "closing", "pinch", "cusp", "step"):
+        xf = np.asarray(mesh.xf, float)
+        xk = float(xf[int(rng.integers(1, mesh.ncell))]) if mesh.ncell > 1 else float(xf[0])      # an interior face
+    if k == "wedge":
+        x0 = float(np.asarray(mesh.xf)[0])
+        f = lambda x: a * (x - x0) / L                    # exactly 0 at the first face
+    elif k == "closing":
+        x1 = float(np.asarray(mesh.xf)[-1])
+        f = lambda x: a * (x1 - x) / L                    # exactly 0 at the last face
+    elif k == "pinch":
+        f = lambda x: a * np.abs(x - xk) / L              # exactly 0 at an interior face
+    elif k == "cusp":
+        f = lambda x: a * ((x - xk) / L) ** 2
+    elif k == "step":
+        f = lambda x: np.where(x < xk, a, a * (1 + b)) + 0.0 * x
+    elif k == "scaled":
+        sc = float(10 ** rng.uniform(-8, 8))
+        f = lambda x: sc * a * (1.0 + b * (2 * x / L - 1) ** 2)
+    elif k == "poly":
         f = lambda x: a * (1.0 + b * (2 * x / L - 1) ** 2)
     elif k == "gauss":
         f = lambda x: a * (1.0 - b * np.exp(-((x - 0.4 * L) / (0.2 * L)) ** 2))
@@ -123,7 +146,7 @@ def _section(rng, L):
 def nozzle_rest(ctx, rng, idx):
     """nozzle at rest, random section law, every mesh/reconstruction/flux; rhs and a short solve"""
     mesh, mdesc = gen.mesh1d(rng, nmin=3, nmax=16, x0=False)
-    sec = _section(rng, mesh.length)
+    sec = _section(rng, mesh.length, mesh)
     gam = float(rng.choice([1.4, 5 / 3, 1.2]))
     model = euler.nozzle(sec, gamma=gam)
     rho, p = float(10 ** rng.uniform(-2, 2)), float(10 ** rng.uniform(-2, 2))
